@@ -77,5 +77,5 @@ def driver (args : List String) : IO UInt32 := do
 
 end NGF.Loop
 
-/-- conventional entry point picked up by gen_driver.py -/
-def NGF.Driver.C10.driver := NGF.Loop.driver
+/-- executable entry point: `ngfdriver_C10 model|judge` -/
+def main (args : List String) : IO UInt32 := NGF.Loop.driver args
